@@ -611,12 +611,26 @@ def c17(ctx):
                             kw = dict(buf=rnd.choice([1, 2, 3, 7, 64]), plan=[rnd.randint(1, 5) for _ in range(rnd.randint(0, 12))], eofwith=rnd.random() < 0.5)
                         cases.append(case("C17", "reuse", fmt, doc=docs[pi], sub=dict(component=comp, mode=mode, history=hd),
                                           origin="%s/%s history %s" % (comp, mode, hist), **kw))
+    # ---- iterator and unfolder: histories of TLC-enumerated Go programs (shared types: first use vs cached use of a type)
+    rows = [r for r in gen_gotypes(ctx, quick=True) if r["T"]["k"] in ("struct", "slice", "map", "ptr", "iface")]
+    rnd.shuffle(rows)
+    G = 40 if ctx.quick else 120
+    progs = [dict(T=r["T"], V=gotypes.fill(r["V"], rnd, n)) for n, r in enumerate(rows[:G])]
+    for comp in ("iter", "unfolder"):
+        for a in range(len(progs)):
+            for b in range(len(progs)):
+                if ctx.quick and (a * 7 + b * 3) % 4 != 0:
+                    continue
+                hist = [progs[a]] if (a + b) % 3 else [progs[a], progs[(a + b) % len(progs)]]
+                cases.append(case("C17", "goreuse", "go", sub=dict(component=comp, history=hist, T=progs[b]["T"], V=progs[b]["V"]), origin="%s history" % comp))
     number(cases)
     tf, st = core.run_harness(ctx, cases)
     failed, nv = core.tlc_validate(ctx, "TraceCodec", tf)
     return run.decide(
         ctx, "TraceCodec", cases, tf, failed, nv, level_note="",
-        rule="ALL histories of up to %d documents over an alphabet of %d shapes per component (chosen with pairwise different signatures "
+        rule="(iterator, unfolder) histories of 1-2 TLC-enumerated Go programs followed by a probe program on one Iterator / one Unfolder "
+             "versus a new one (pairs over a seeded alphabet of programs that share types, so a type is met first as a plain value and "
+             "later inlined/omitted and vice versa); (codecs) ALL histories of up to %d documents over an alphabet of %d shapes per component (chosen with pairwise different signatures "
              "from the TLC generators: scalars, strings, empty/nested containers, known/unknown lengths, typed containers, every family "
              "of extended events) followed by every probe from the same alphabet (quick: half of the longest histories, seeded), for the "
              "3 encoders, the 3 parsers (Parse per document and Write+end) and the 3 pull decoders (byte slice and scripted reader); "
@@ -624,7 +638,7 @@ def c17(ctx):
              "every document with a new instance's. Distinct = distinct (component, history, probe); non-trivial = history not empty."
              % (H, A),
         nontrivial=lambda c: len(c["sub"]["history"]) > 0,
-        assumptions=TCB + ["iterator and unfolder reuse are decided by the gotype checks (C11-C14)"])
+        assumptions=TCB)
 
 
 # ---------------------------------------------------------------- C09
@@ -754,6 +768,20 @@ def c13(ctx):
         if rnd.random() < (0.25 if ctx.quick else 1.0):
             for st in streams.fills(shape, 1, rnd)[:3]:
                 cases.append(case("C13", "unfold", "go", stream=st, sub=dict(T=dict(k="iface"), V0=gotypes.zero_vd(dict(k="iface"))), origin="GenEvents into interface{}"))
+    # deep nesting below interface{} (scratch buffers of the generic unfolders grow with depth)
+    def chain(d, kind):
+        if d == 0:
+            return [streams.ev("int", "int8", streams.canon(d + 1))]
+        if kind == "obj" or (kind == "mix" and d % 2):
+            return [streams.ev("objS", "objS", (), 1 if d % 3 else -1, "any"), streams.ev("key", "keyref" if d % 2 else "key", list(b"k%d" % d))] + chain(d - 1, kind) + [streams.ev("objE", "objE")]
+        return [streams.ev("arrS", "arrS", (), 1 if d % 3 else -1, "any")] + chain(d - 1, kind) + [streams.ev("arrE", "arrE")]
+    S1T = dict(k="struct", f=[dict(name="I", tname="", opts=[], t=dict(k="iface")), dict(name="N", tname="", opts=[], t=dict(k="int"))])
+    for d in range(1, 11):
+        for kind in ("obj", "arr", "mix"):
+            st = chain(d, kind)
+            cases.append(case("C13", "unfold", "go", stream=st, sub=dict(T=dict(k="iface"), V0=gotypes.zero_vd(dict(k="iface"))), origin="deep %s %d" % (kind, d)))
+            st2 = [streams.ev("objS", "objS", (), -1, "any"), streams.ev("key", "key", list(b"i"))] + st + [streams.ev("key", "key", list(b"n")), streams.ev("int", "int8", streams.canon(5)), streams.ev("objE", "objE")]
+            cases.append(case("C13", "unfold", "go", stream=st2, sub=dict(T=S1T, V0=gotypes.zero_vd(S1T)), origin="deep %s %d in struct field" % (kind, d)))
     number(cases)
     tf, st = core.run_harness(ctx, cases)
     failed, nv = core.tlc_validate(ctx, "TraceCodec", tf)
@@ -939,6 +967,14 @@ def c15(ctx):
                 if (n + j) % 4 == 0:
                     sub["keycache"] = rnd.choice([0, 1, 2, 8])
                 cases.append(case("C15", "alias", fmt, doc=doc, cuts=cuts, sub=sub, origin="alias doc %d" % n))
+            # maps whose elements are handled via reflection keep the key until the element is complete
+            ms = {"k\\/1": [S(), S()], "k2" + S()[:2]: [S()], "e\n": []}
+            d2 = enc_doc(fmt, ms)
+            for cuts in ([], list(range(1, len(d2))), sorted(rnd.sample(range(1, len(d2)), 3))):
+                cases.append(case("C15", "alias", fmt, doc=d2, cuts=cuts, sub=dict(target="mapslice", follow=enc_doc(fmt, {"zz": [S()]}), gc=False), origin="map of slices %d" % n))
+            mst = {"k\\/1": {"V": S()}, "q" + S()[:2]: {"V": S()}}
+            d3 = enc_doc(fmt, mst)
+            cases.append(case("C15", "alias", fmt, doc=d3, cuts=sorted(rnd.sample(range(1, len(d3)), 2)), sub=dict(target="mapstruct", follow=enc_doc(fmt, {"zz": {"V": S()}}), gc=False), origin="map of structs %d" % n))
             # flat string maps exercise the typed map unfolders
             flat = {("k%d" % i) + S()[:3]: S() for i in range(4)}
             cases.append(case("C15", "alias", fmt, doc=enc_doc(fmt, flat), cuts=sorted(rnd.sample(range(1, len(enc_doc(fmt, flat))), 4)),
